@@ -9,6 +9,6 @@ CONSTANTS
   DtVals <- T3
   WithDeviations = TRUE
   WithCache = TRUE
-INVARIANTS ChildEqualsDerived DeviationRejected EntropyStrictlyIncreases ParentEntropyRecorded NumbersConsecutive PrimeTerminusIsLastPrime OrderStable IntrinsicPositive
+INVARIANTS ChildEqualsDerived DeviationRejected EntropyStrictlyIncreases ParentEntropyRecorded NumbersConsecutive PrimeTerminusIsLastPrime OrderStable OrderIsFunctionOfSealAndDeltas IntrinsicPositive
 VIEW view
 CHECK_DEADLOCK FALSE
